@@ -84,21 +84,21 @@ func (w *monWAL) Save(h raftpb.HardState, es []raftpb.Entry, s raftpb.Snapshot) 
 }
 
 type c05Event struct {
-	Kind string `json:"kind"` // write cut heal crash restart
-	Node uint64 `json:"node,omitempty"`
-	Id   string `json:"id,omitempty"`
-	Op   string `json:"op,omitempty"`
-	Acked bool  `json:"acked,omitempty"`
+	Kind  string `json:"kind"` // write cut heal crash restart
+	Node  uint64 `json:"node,omitempty"`
+	Id    string `json:"id,omitempty"`
+	Op    string `json:"op,omitempty"`
+	Acked bool   `json:"acked,omitempty"`
 }
 type c05Case struct {
-	Events     []c05Event   `json:"events"`
-	Violations []string     `json:"violations"`
+	Events     []c05Event             `json:"events"`
+	Violations []string               `json:"violations"`
 	Contents   map[string][]stObsItem `json:"-"`
-	Ops        []c03Op      `json:"ops"`
-	Acked      []bool       `json:"acked"`
-	Final      []stObsItem  `json:"final"`
-	Msgs       int          `json:"raft_messages_checked"`
-	Converged  bool         `json:"converged"`
+	Ops        []c03Op                `json:"ops"`
+	Acked      []bool                 `json:"acked"`
+	Final      []stObsItem            `json:"final"`
+	Msgs       int                    `json:"raft_messages_checked"`
+	Converged  bool                   `json:"converged"`
 }
 
 func runC05Schedule(r *rng, nEvents int, script []string) (c05Case, error) {
@@ -209,8 +209,13 @@ func runC05Schedule(r *rng, nEvents int, script []string) (c05Case, error) {
 			ds.VerifSetSearchClient(o, &memSearchClient{to: c.nodes[o]})
 		}
 		ds.VerifWrapWAL(0, func(w wal.WAL) wal.WAL { return c.wrapWAL(n, 0, w) })
-		// the allocator loads raft with the partition's node ids on every start
-		return ds.VerifLoadRaft(0, []uint64{1, 2, 3})
+		// the allocator loads raft with the partition's node ids on every start; raft refusing the stored state (a panic
+		// in RestartNode) is the replica failing to resume from what it made durable
+		var lerr error
+		if panicked, msg := recoverPanic(func() { lerr = ds.VerifLoadRaft(0, []uint64{1, 2, 3}) }); panicked {
+			return fmt.Errorf("panic: %s", msg)
+		}
+		return lerr
 	}
 	leaderOf := func() uint64 {
 		for _, n := range nodes {
@@ -268,7 +273,11 @@ func runC05Schedule(r *rng, nEvents int, script []string) (c05Case, error) {
 		cs.Acked = append(cs.Acked, acked)
 		cs.Events = append(cs.Events, c05Event{Kind: "write", Node: via, Id: op.Id, Op: op.Kind, Acked: acked})
 	}
+	broken := false // a replica could not be restarted: the schedule ends there
 	for _, step := range script {
+		if broken {
+			break
+		}
 		var n uint64
 		if len(step) > 1 {
 			n = uint64(step[1] - '0')
@@ -302,6 +311,8 @@ func runC05Schedule(r *rng, nEvents int, script []string) (c05Case, error) {
 					c.nodes[m].setUnreachable(false)
 					if err := restart(m); err != nil {
 						viol = append(viol, fmt.Sprintf("restart of node %d failed: %v", m, err))
+						broken = true
+						break
 					}
 					alive[m] = true
 					cs.Events = append(cs.Events, c05Event{Kind: "restart", Node: m})
@@ -310,9 +321,22 @@ func runC05Schedule(r *rng, nEvents int, script []string) (c05Case, error) {
 		case 'S':
 			ensureLeader()
 			time.Sleep(400 * time.Millisecond)
+		case 'P':
+			// the periodic local snapshot + log compaction, now, at the replica's applied index
+			if alive[n] {
+				g := c.nodes[n].datasets[dsid].VerifRaft(0)
+				applied := g.VerifStatus().Applied
+				done := make(chan struct{})
+				go func() { g.VerifSnapshotNow(applied, 0); close(done) }()
+				select {
+				case <-done:
+				case <-time.After(time.Second):
+				}
+				cs.Events = append(cs.Events, c05Event{Kind: "snapshot", Node: n})
+			}
 		}
 	}
-	for len(cs.Events) < nEvents {
+	for len(cs.Events) < nEvents && !broken {
 		x := r.intn(100)
 		nAlive, nUp := 0, 0
 		for _, n := range nodes {
@@ -381,6 +405,8 @@ func runC05Schedule(r *rng, nEvents int, script []string) (c05Case, error) {
 					c.nodes[n].setUnreachable(false)
 					if err := restart(n); err != nil {
 						viol = append(viol, fmt.Sprintf("restart of node %d failed: %v", n, err))
+						broken = true
+						break
 					}
 					alive[n] = true
 					cs.Events = append(cs.Events, c05Event{Kind: "restart", Node: n})
@@ -397,47 +423,51 @@ func runC05Schedule(r *rng, nEvents int, script []string) (c05Case, error) {
 			c.nodes[n].setUnreachable(false)
 			if err := restart(n); err != nil {
 				viol = append(viol, fmt.Sprintf("restart of node %d failed: %v", n, err))
+				broken = true
+				break
 			}
 			alive[n] = true
 		}
 	}
-	cut = map[uint64]bool{}
-	ensureLeader()
-	dump := func(n uint64) []stObsItem {
-		var out []stObsItem
-		d := c.nodes[n].datasets[dsid].VerifIndex(0).VerifDump()
-		for _, v := range d.Vertices {
-			if v.InMap {
-				out = append(out, stObsItem{Id: v.Id.String(), Vec: v.Vector, Meta: v.Metadata})
-			}
-		}
-		sort.Slice(out, func(i, j int) bool { return out[i].Id < out[j].Id })
-		return out
-	}
-	deadline := time.Now().Add(6 * time.Second)
-	for time.Now().Before(deadline) {
-		a, b2, c3 := fmt.Sprint(dump(1)), fmt.Sprint(dump(2)), fmt.Sprint(dump(3))
-		st1 := c.nodes[1].datasets[dsid].VerifRaft(0).VerifStatus()
-		if a == b2 && b2 == c3 && st1.Lead != 0 && st1.Applied == st1.Commit {
-			cs.Converged = true
-			break
-		}
+	if !broken {
+		cut = map[uint64]bool{}
 		ensureLeader()
-		time.Sleep(30 * time.Millisecond)
-	}
-	cs.Final = dump(1)
-	if !cs.Converged {
-		diag := ""
-		for _, n := range nodes {
-			g := c.nodes[n].datasets[dsid].VerifRaft(0)
-			if g == nil {
-				diag += fmt.Sprintf(" node %d: no group;", n)
-				continue
+		dump := func(n uint64) []stObsItem {
+			var out []stObsItem
+			d := c.nodes[n].datasets[dsid].VerifIndex(0).VerifDump()
+			for _, v := range d.Vertices {
+				if v.InMap {
+					out = append(out, stObsItem{Id: v.Id.String(), Vec: v.Vector, Meta: v.Metadata})
+				}
 			}
-			s := g.VerifStatus()
-			diag += fmt.Sprintf(" node %d: term=%d lead=%d commit=%d applied=%d state=%v;", n, s.Term, s.Lead, s.Commit, s.Applied, s.RaftState)
+			sort.Slice(out, func(i, j int) bool { return out[i].Id < out[j].Id })
+			return out
 		}
-		viol = append(viol, fmt.Sprintf("replicas did not converge after faults stopped: %v | %v | %v (%s)", dump(1), dump(2), dump(3), diag))
+		deadline := time.Now().Add(6 * time.Second)
+		for time.Now().Before(deadline) {
+			a, b2, c3 := fmt.Sprint(dump(1)), fmt.Sprint(dump(2)), fmt.Sprint(dump(3))
+			st1 := c.nodes[1].datasets[dsid].VerifRaft(0).VerifStatus()
+			if a == b2 && b2 == c3 && st1.Lead != 0 && st1.Applied == st1.Commit {
+				cs.Converged = true
+				break
+			}
+			ensureLeader()
+			time.Sleep(30 * time.Millisecond)
+		}
+		cs.Final = dump(1)
+		if !cs.Converged {
+			diag := ""
+			for _, n := range nodes {
+				g := c.nodes[n].datasets[dsid].VerifRaft(0)
+				if g == nil {
+					diag += fmt.Sprintf(" node %d: no group;", n)
+					continue
+				}
+				s := g.VerifStatus()
+				diag += fmt.Sprintf(" node %d: term=%d lead=%d commit=%d applied=%d state=%v;", n, s.Term, s.Lead, s.Commit, s.Applied, s.RaftState)
+			}
+			viol = append(viol, fmt.Sprintf("replicas did not converge after faults stopped: %v | %v | %v (%s)", dump(1), dump(2), dump(3), diag))
+		}
 	}
 	vmu.Lock()
 	for n, v := range views {
@@ -458,7 +488,7 @@ func runC05Schedule(r *rng, nEvents int, script []string) (c05Case, error) {
 
 func runC05(a *args) error {
 	r := newRng(a.seed)
-	st := newStats("3-replica partition groups on a simulated cluster: two scripted prologues (a deposed leader's uncommitted tail overwritten by a shorter suffix, then a restart of that replica) and schedules of 25..45 events — writes through any connected node (55%), cutting one node off / healing (message loss in both directions), crash of one replica (clean stop or abrupt) and restart through the real boot path with the partition's node ids; every raft message checked against the sender's durable state (vote grants, append acknowledgements, terms), every Save checked for a hard state moving backwards, every reopened log compared with the log that was made durable (last index, term at every index), convergence and explained contents after faults stop; non-trivial = contains a crash+restart and a cut; distinct by hash of the event list")
+	st := newStats("3-replica partition groups on a simulated cluster: three scripted prologues (a deposed leader's uncommitted tail overwritten by a shorter suffix, then a restart of that replica - twice; writes, idling, local snapshot + compaction on every replica, then each replica restarted in turn) and schedules of 25..45 events — writes through any connected node (55%), cutting one node off / healing (message loss in both directions), crash of one replica (clean stop or abrupt) and restart through the real boot path with the partition's node ids; every raft message checked against the sender's durable state (vote grants, append acknowledgements, terms), every Save checked for a hard state moving backwards, every reopened log compared with the log that was made durable (last index, term at every index), convergence and explained contents after faults stop; non-trivial = contains a crash+restart and a cut; distinct by hash of the event list")
 	var cases []c05Case
 	seen := map[string]bool{}
 	for i := 0; i < a.n; i++ {
@@ -470,6 +500,10 @@ func runC05(a *args) error {
 		case 1:
 			// the same with the restart while the old leader is still cut off
 			script = []string{"W1", "C1", "W1", "W1", "W1", "W2", "H", "S", "W3", "K1", "S", "R", "S"}
+		case 2:
+			// writes, then the group idles (the last commit advance reaches every replica in a Ready that carries nothing
+			// else), every replica compacts its log at its applied index, and each is stopped and restarted in turn
+			script = []string{"W1", "W2", "W3", "W1", "W2", "S", "P1", "P2", "P3", "K2", "S", "R", "S", "K1", "S", "R", "S", "K3", "S", "R", "S", "W1"}
 		}
 		cs, err := runC05Schedule(r.fork(), 25+r.intn(21), script)
 		if err != nil {
